@@ -2,6 +2,7 @@ import PppModel.Props.C14
 import PppModel.Props.C11
 import PppModel.Lemmas.Builder
 import PppModel.Props.C10
+import PppModel.Props.C07
 
 /-!
 # C13 — re-encoding a parsed v2 header from its parts reproduces it byte for byte
@@ -189,5 +190,46 @@ example :
         (Builder.new (byteAt h.header 12) (byteAt h.header 13)).run
           [.writePayload (.slice h.addressBytes), .writePayloads (itemPayloads h.tlvs)] == some h.header) =
       some true := by decide
+
+/-- **C13 (augment).** A proxy that parses a header with a specified family and a well-formed
+TLV section, and re-emits it from the decoded parts with further TLVs appended, produces (whenever
+the result still fits) a header that parses back to the same command, transport and addresses
+and to the old TLVs followed by the new ones, in order. -/
+theorem augment {x : B} {h : Header} (_hp : V2.parse x = .ok h)
+    (hfam : h.addressFamily ≠ .unspec) (items : List Tlv) (hitems : h.tlvs = items.map .ok)
+    (extra : List Tlv) (hv : ∀ t ∈ extra, t.value.length ≤ 65535)
+    (hfit : (Spec.V2.addrBytes h.addresses).length + ((items ++ extra).flatMap Spec.Tlv.enc).length ≤ 65535)
+    (trail : B) :
+    ∃ out h', (Builder.withAddresses (vcByte h.version h.command) h.protocol h.addresses).run
+          (C07.tlvOps (items ++ extra)) = some out ∧
+      V2.parse (out ++ trail) = .ok h' ∧ h'.header = out ∧
+      h'.command = h.command ∧ h'.protocol = h.protocol ∧ h'.addresses = h.addresses ∧
+      h'.tlvs = (items ++ extra).map .ok := by
+  have hvi : ∀ t ∈ items, t.value.length ≤ 65535 := by
+    intro t ht
+    have hmem : (Except.ok t : Item) ∈ h.tlvs := by rw [hitems]; exact List.mem_map.mpr ⟨t, ht, rfl⟩
+    rw [C11.header_tlvs_eq_walk] at hmem
+    exact walk_values_le _ _ _ hmem t rfl
+  have hall : ∀ t ∈ items ++ extra, t.value.length ≤ 65535 := by
+    intro t ht
+    rcases List.mem_append.mp ht with h1 | h1
+    · exact hvi t h1
+    · exact hv t h1
+  have hver : h.version = .two := by cases h.version; rfl
+  refine ⟨_, _, ?_, C07.parses_back h.command h.protocol h.addresses (items ++ extra) hfit trail, rfl, rfl, rfl, rfl, ?_⟩
+  · rw [hver]; exact C07.build_is_encoding h.command h.protocol h.addresses (items ++ extra) hall hfit
+  · exact C07.tlvs_back h.command h.protocol h.addresses (items ++ extra) hall hfam
+
+
+/-- Non-vacuity of `augment`: the accepted header of the previous example, re-emitted with one more
+TLV, parses back to the old item followed by the new one. -/
+example :
+    (V2.parse [0x0D, 0x0A, 0x0D, 0x0A, 0x00, 0x0D, 0x0A, 0x51, 0x55, 0x49, 0x54, 0x0A,
+               0x21, 0x11, 0x00, 0x10, 127, 0, 0, 1, 192, 168, 1, 1, 0, 80, 1, 187,
+               4, 0, 1, 42]).toOption.map (fun h =>
+        ((Builder.withAddresses (vcByte h.version h.command) h.protocol h.addresses).run
+          (C07.tlvOps ([⟨4, [42]⟩] ++ [⟨5, [1, 2]⟩]))).map (fun out =>
+            (V2.parse out).toOption.map (fun h' => h'.tlvs == [.ok ⟨4, [42]⟩, .ok ⟨5, [1, 2]⟩] && h'.addresses == h.addresses))) =
+      some (some (some true)) := by decide +kernel
 
 end C13
